@@ -508,11 +508,11 @@ Lemma mem_build_run c src v0 u :
     mem_build c (vbk src) (v0, u) = Ok tt (vb, ub) /\
     (fixed_backend (vbk src) -> vcap vb = vcap src) /\
     (~ fixed_backend (vbk src) ->
-     vb = {| vlen := 0; vcap := 0; vmem := []; vgen := 0; vbk := vbk src |}).
+     vbk vb = vbk src /\ (vbk src = BHeap -> vcap vb = 0)).
 Proof.
   unfold backend_consistent, mem_build. intros H.
-  destruct (vbk src) as [|size|n size| |]; cbn [fixed_backend].
-  - eexists _, _. split; [reflexivity|]. split; [intros []|]. intros _. reflexivity.
+  destruct (vbk src) as [|size|n size| |c0]; cbn [fixed_backend].
+  - eexists _, _. split; [reflexivity|]. split; [intros []|]. intros _. split; reflexivity.
   - eexists _, _. split; [reflexivity|]. split.
     + intros _. cbn [vcap]. symmetry. exact H.
     + intros F. exfalso. apply F. exact I.
@@ -523,7 +523,7 @@ Proof.
   - eexists _, _. split; [reflexivity|]. split.
     + intros _. cbn [vcap]. symmetry. exact H.
     + intros F. exfalso. apply F. exact I.
-  - eexists _, _. split; [reflexivity|]. split; [intros []|]. intros _. reflexivity.
+  - eexists _, _. split; [reflexivity|]. split; [intros []|]. intros _. split; [reflexivity|discriminate].
 Qed.
 
 Lemma clone_prepare c src u xs v0 :
@@ -546,9 +546,12 @@ Proof.
     destruct (fixed_backend_dec (vbk src)) as [F|NF].
     - left. rewrite (Hfx F). apply (rep_cap _ _ _ HR).
     - right. destruct Hfit as [F|[Hu Ha]]; [contradiction|].
-      rewrite (Hnf NF). rewrite Hlen. unfold grow_ok. cbn [vbk].
-      revert Ha NF. destruct (vbk src); cbn [fixed_backend]; intros Ha NF;
-        try (exfalso; apply NF; exact I); split; assumption. }
+      destruct (Hnf NF) as [Hbk0 Hcap0].
+      rewrite Hlen. unfold grow_ok, grow_target in *. rewrite Hbk0. cbn [vbk vcap] in Ha.
+      revert Ha NF Hcap0. destruct (vbk src); cbn [fixed_backend]; intros Ha NF Hcap0;
+        try (exfalso; apply NF; exact I); (split; [assumption|]).
+      + rewrite (Hcap0 eq_refl). exact Ha.
+      + exact Ha. }
   destruct (reserve_ok c vb ub [] (vlen src) Hwf HRb Hroom)
     as (v1 & u1 & Er & HR1 & Hc1 & _ & Hl1 & Hbk1 & (Hsn & Hsf & Hse) & _).
   exists vb, ub, v1, u1. split; [exact Eb|]. split; [exact Er|]. split; [exact HR1|].
